@@ -5,6 +5,7 @@ import (
 	"fmt"
 	"html"
 	"net/url"
+	"strconv"
 	"strings"
 	"sync"
 	"unicode/utf8"
@@ -20,9 +21,40 @@ type Case struct {
 	Filter string `json:"filter"`
 	Param  string `json:"param,omitempty"`
 	In     eng.Q  `json:"in"`
+	// Tag: a third route - the filter tag, executed right after a filter tag whose body wrote text and then failed
+	Tag bool `json:"tag,omitempty"`
 }
 
-func (c *Case) ID() string { return fmt.Sprintf("%s:%s %q", c.Filter, c.Param, string(c.In)) }
+func (c *Case) ID() string {
+	id := fmt.Sprintf("%s:%s %q", c.Filter, c.Param, string(c.In))
+	if c.Tag {
+		id += " filter-tag-after-failure"
+	}
+	return id
+}
+
+var (
+	failingFilterTag = pongo2.Must(pongo2.NewSet("c17-failing", pongo2.MustNewLocalFileSystemLoader("")).FromString("{% filter upper %}LEFTOVER-FROM-A-FAILED-BODY{{ 1 / zero }}{% endfilter %}"))
+	tagTplMu         sync.Mutex
+	tagTpls          = map[string]*pongo2.Template{}
+)
+
+func tagTplFor(f, p string) *pongo2.Template {
+	tagTplMu.Lock()
+	defer tagTplMu.Unlock()
+	k := f + ":" + p
+	if t, ok := tagTpls[k]; ok {
+		return t
+	}
+	call := f
+	if p != "" {
+		call += ":" + strconv.Quote(p)
+	}
+	set, _ := px.NewSet(nil)
+	t := pongo2.Must(set.FromString("{% autoescape off %}{% filter " + call + " %}{{ v }}{% endfilter %}{% endautoescape %}"))
+	tagTpls[k] = t
+	return t
+}
 
 var (
 	tplMu    sync.Mutex
@@ -213,6 +245,15 @@ func (c *Case) Exec(t *eng.T) {
 	if o2.Failed() || o2.S != out {
 		t.Fail(c.Filter+":route-mismatch", "%s on %q: ApplyFilter gives %q, template gives %s", c.Filter, in, out, o2)
 	}
+	if c.Tag {
+		if _, ferr := failingFilterTag.Execute(pongo2.Context{"zero": 0}); ferr == nil {
+			t.Fail("harness:failing-filter-tag-did-not-fail", "the failing filter tag rendered")
+		}
+		o3 := px.Exec(tagTplFor(c.Filter, c.Param), pongo2.Context{"v": in})
+		if o3.Failed() || o3.S != out {
+			t.Fail(c.Filter+":filter-tag-route-mismatch", "%s on %q: ApplyFilter gives %q, the filter tag (executed after a filter tag whose body failed) gives %s", c.Filter, in, out, o3)
+		}
+	}
 	t.Outcome(c.Filter + out)
 	if strings.ContainsAny(in, "<>&\"'\\") || !valid || len(in) != len([]rune(in)) {
 		t.Nontrivial()
@@ -392,15 +433,16 @@ func run(r *eng.Runner) {
 	a16 := []string{"<", ">", "&", "\"", "'", "\\", "/", " ", "a", "b", "n", ";", "#", "\n", "\xc3\xa9", "\xff"}
 	a8 := []string{"<", ">", "/", "a", "b", " ", "&", "\\", ","}
 	aEnt := []string{"&", "amp;", "#39;", "lt;", "<", "'", ";", "r", "\\", "�"}
-	n16, n8, nEnt := 3, 5, 4
+	aPct := []string{"%", "4", "1", "a", "F", "G", " ", "+", "&", "=", "\xc3\xa9"}
+	n16, n8, nEnt, nPct := 3, 5, 4, 4
 	if !r.Quick() {
-		n16, n8, nEnt = 4, 6, 5
+		n16, n8, nEnt, nPct = 4, 6, 5, 5
 	}
 	groups := []struct {
 		name string
 		a    []string
 		n    int
-	}{{"specials16", a16, n16}, {"tags8", a8, n8}, {"entities10", aEnt, nEnt}}
+	}{{"specials16", a16, n16}, {"tags8", a8, n8}, {"entities10", aEnt, nEnt}, {"percent11", aPct, nPct}}
 	for _, g := range groups {
 		r.Group(g.name, "c17.case", fmt.Sprintf("all strings of <=%d symbols over %d special symbols %q x 11 filter configurations", g.n, len(g.a), g.a))
 		r.NoDedup()
@@ -410,6 +452,18 @@ func run(r *eng.Runner) {
 				return !r.Stopped()
 			})
 		}
+	}
+	runTagRoute(r, fs, a16)
+}
+
+func runTagRoute(r *eng.Runner, fs []fp, a16 []string) {
+	r.Group("filter-tag-route", "c17.case", "every string of <=2 special symbols x 11 filter configurations through the filter tag, each execution preceded by a filter tag whose body wrote text and then failed")
+	r.NoDedup()
+	for _, f := range fs {
+		enum.Strings(a16, 2, func(s string, _ []int) bool {
+			r.Do(&Case{Filter: f.f, Param: f.p, In: eng.Q(s), Tag: true})
+			return !r.Stopped()
+		})
 	}
 }
 
